@@ -427,6 +427,24 @@ defs.append("(* %s: true = the raw module is skipped *)\n"
                cmp_(mlr["o_op"], opd(E_MLR, mlr["o_l"], MR_), "t")))
 sites.append(("g_module_read_drop", MR_))
 
+# MinidumpUnloadedModuleList::read: one bad raw module rejects the whole stream (Err), the rest go to from_modules
+UR_ = "MinidumpUnloadedModuleList::read (minidump.rs)"
+ulr = match("let mut offset = 0; let raw_modules: Vec<md::MINIDUMP_UNLOADED_MODULE> = read_ex_stream_list(&mut offset, bytes, endian)?; "
+            "let mut modules = Vec::with_capacity(raw_modules.len()); "
+            "for raw in raw_modules.into_iter() { "
+            "if <z_l:opd> <z_op:cmp> <z_c:int> || <o_l:opd> as u64 <o_op:cmp> (u64::MAX <s_op:arith> <o_r:opd>) { "
+            "return Err(Error::ModuleReadFailure); } "
+            "modules.push(MinidumpUnloadedModule::read(raw, all, endian)?); } "
+            "Ok(MinidumpUnloadedModuleList::from_modules(modules))",
+            block_after(mdsrc, r"fn read\(\s*bytes: &'a \[u8\],\s*all: &'a \[u8\],\s*endian: scroll::Endian,\s*_system_info: Option<&MinidumpSystemInfo>,\s*\) -> Result<MinidumpUnloadedModuleList, Error> \{", UR_), UR_)
+defs.append("(* %s: true = the raw module makes read return Err(ModuleReadFailure) *)\n"
+            "Definition g_unloaded_read_bad (p : profile) (base size : Z) : outcome bool :=\n"
+            "  if %s then Ret true\n"
+            "  else do t <- %s p 64 PANIC_G_MR_ARITH U64MAX %s; Ret %s.\n"
+            % (UR_, cmp_(ulr["z_op"], opd(E_MLR, ulr["z_l"], UR_), ulr["z_c"]), ARITH[ulr["s_op"]], opd(E_MLR, ulr["o_r"], UR_),
+               cmp_(ulr["o_op"], opd(E_MLR, ulr["o_l"], UR_), "t")))
+sites.append(("g_unloaded_read_bad", UR_))
+
 # unloaded modules: sorted vector + filter(contains)
 UB = "MinidumpUnloadedModuleList::from_modules (minidump.rs)"
 ub = block_after(mdsrc, r"pub fn from_modules\(modules: Vec<MinidumpUnloadedModule>\) -> MinidumpUnloadedModuleList \{", UB)
